@@ -37,6 +37,10 @@ func DurationHMS(d time.Duration) []byte {
 	return []byte{BCD2(s / 3600), BCD2(s / 60 % 60), BCD2(s % 60)}
 }
 
+// VBIReservedBytes is the number of reserved bytes encoded for a VBI data service with a reserved id (EN 300 468 6.2.47
+// allows any data_service_descriptor_length there; the decoded value does not keep them).
+var VBIReservedBytes = 1
+
 // VBIKnownService reports whether a VBI data_service_id carries line descriptions.
 func VBIKnownService(id uint8) bool {
 	switch id {
@@ -267,9 +271,12 @@ func DescriptorBody(d *astits.Descriptor) []byte {
 						w.U(uint64(l.LineOffset), 5)
 					}
 				} else {
-					// the struct cannot hold the reserved bytes of other services: one reserved byte
-					w.U(1, 8)
-					w.U(0xff, 8)
+					// the struct cannot hold the reserved bytes of other services: one reserved byte, as the library
+					// writes (VBIReservedBytes lets a parse test use any other conformant count)
+					w.U(uint64(VBIReservedBytes), 8)
+					for k := 0; k < VBIReservedBytes; k++ {
+						w.U(0xff, 8)
+					}
 				}
 			}
 		}
